@@ -149,6 +149,16 @@ def dbl_expr(bits):
     return "(bytevector-ieee-double-native-ref (bytevector %s) 0)" % " ".join(str(b) for b in struct.pack("<Q", bits))
 
 
+def big_expr(n):
+    """an exact integer built by arithmetic from literals below 10^9, so that the datum handed to the writer does not
+    depend on the reader under test (a literal would go through the same reader twice and hide a consistent misreading)"""
+    if n < 0:
+        return "(- %s)" % big_expr(-n)
+    if n < 10 ** 9:
+        return str(n)
+    return "(+ (* %s 1000000000) %d)" % (big_expr(n // 10 ** 9), n % 10 ** 9)
+
+
 class TreeGen(object):
     def __init__(self, ch, rng):
         self.ch = ch
@@ -162,11 +172,16 @@ class TreeGen(object):
             return str(ch.pick([0, 1, -1, 42, 4611686018427387903, -4611686018427387904]))
         if k == 1:
             self.tags.add("bignum")
-            return str(N.rand_int(random.Random(ch.n(1 << 30)), 300))
+            r = random.Random(ch.n(1 << 30))
+            if ch.p(0.4):
+                # decimal lengths around the word boundaries (19-21 and 38-40 digits), any leading digits
+                n = r.randrange(10 ** (ch.pick([18, 19, 19, 20, 37, 38, 39]))) * ch.pick([1, 1, -1])
+                return big_expr(n + ch.pick([0, 10 ** 19, 2 * 10 ** 19, 10 ** 20]))
+            return big_expr(N.rand_int(r, 300))
         if k == 2:
             self.tags.add("ratio")
             r = N.rand_ratio(random.Random(ch.n(1 << 30)), 120)
-            return "(/ %d %d)" % (r.numerator, r.denominator)
+            return "(/ %s %s)" % (big_expr(r.numerator), big_expr(r.denominator))
         if k == 3:
             self.tags.add("flonum")
             return dbl_expr(ch.pick([0, 1 << 63, 0x7FF0000000000000, 0xFFF0000000000000, 0x7FF8000000000000, 0x3FB999999999999A, 1, 0x7FEFFFFFFFFFFFFF]))
